@@ -19,7 +19,7 @@ SEEDS = [0, 1, 0xFFFFFFFF, 0x80000000, 0x01020304, 0x04030201]
 
 def generate(rng, tier):
     cs = []
-    n = 300 if tier == "quick" else 6000
+    n = 300 if tier == "quick" else 30000
     for exp in "vtw":
         for i in range(n):
             user = cred(rng)
@@ -40,7 +40,8 @@ def generate(rng, tier):
             # server: decision
             r = rng.random()
             kind = "accept"; pres = proof; su = user; sK = K; scs = cseed; sss = sseed
-            if r < 0.15: kind = "proof-bit-flip"; pres = flip(proof, rng.randrange(160))
+            if r < 0.1: kind = "proof-bit-flip"; pres = flip(proof, rng.randrange(160))
+            elif r < 0.15: kind = "proof-two-place-change"; pres = rng.choice(two_place_flips(rng, proof, 4))
             elif r < 0.3: kind = "key-bit-flip"; sK = flip(K, rng.randrange(320))
             elif r < 0.4:
                 kind = "other-name"; su = cred(rng)
